@@ -156,6 +156,7 @@ type result struct {
 	calls     int      // lower-layer calls during the fault phase
 	addrs     []string // their addresses, sorted (dry run)
 	tails     []string // dry run: per mutating operation and (layer, op) kind, the address of the LAST such call
+	finals    []string // dry run: per mutating operation, the address of its very last lower-layer call
 	violation error
 	inconcl   string
 	hitInside bool // a fault was delivered not as the first lower call of an op
@@ -291,6 +292,7 @@ func run(cd *caseDef, faults []fault, recoverAfter bool) (res result) {
 	faultPhase := true
 	curMutating := false
 	tailOfKind := map[string]string{}                    // kind -> last address inside the current mutating op
+	lastOfOp := ""                                       // last address inside the current mutating op
 	env.Match = func(e *vstore.Event) vstore.Behaviour { // runs under the Env lock: serialised
 		if !faultPhase {
 			return vstore.OK
@@ -301,6 +303,7 @@ func run(cd *caseDef, faults []fault, recoverAfter bool) (res result) {
 			res.addrs = append(res.addrs, a)
 			if curMutating {
 				tailOfKind[e.Layer+" "+e.Op] = a
+				lastOfOp = a
 			}
 		}
 		b, ok := fm[a]
@@ -337,7 +340,11 @@ func run(cd *caseDef, faults []fault, recoverAfter bool) (res result) {
 				for _, k := range ks {
 					res.tails = append(res.tails, tailOfKind[k])
 				}
+				if lastOfOp != "" {
+					res.finals = append(res.finals, lastOfOp)
+				}
 			}
+			lastOfOp = ""
 			for k := range tailOfKind {
 				delete(tailOfKind, k)
 			}
@@ -784,19 +791,26 @@ func TestSingleFaults(t *testing.T) {
 			// plus up to three "tail" addresses: the last call of its kind inside a receive or remove
 			// (the verifying stat after a rename, the index write after the data) - a failure that
 			// arrives after the operation's point of no return
-			if len(dry.tails) > 0 {
-				pos := map[string]int{}
-				for i, a := range dry.addrs {
-					pos[a] = i
+			pos := map[string]int{}
+			for i, a := range dry.addrs {
+				pos[a] = i
+			}
+			pickFrom := func(list []string, n int, label, evLabel string) {
+				if len(list) == 0 {
+					return
 				}
-				nt := min(3, len(dry.tails))
-				for _, ti := range rapid.SliceOfNDistinct(rapid.IntRange(0, len(dry.tails)-1), nt, nt, rapid.ID[int]).Draw(t, "tailAddrs") {
-					if k, ok := pos[dry.tails[ti]]; ok && !slices.Contains(ks, k) {
+				n = min(n, len(list))
+				for _, ti := range rapid.SliceOfNDistinct(rapid.IntRange(0, len(list)-1), n, n, rapid.ID[int]).Draw(t, label) {
+					if k, ok := pos[list[ti]]; ok && !slices.Contains(ks, k) {
 						ks = append(ks, k)
-						evid.R.Label("single/fault-at-last-call-of-its-kind-in-a-mutation")
+						evid.R.Label(evLabel)
 					}
 				}
 			}
+			// the very last lower-layer call of two receives/removes (the verifying stat after a rename, the
+			// row written after the data), and two more "last call of its kind" addresses
+			pickFrom(dry.finals, 2, "finalAddrs", "single/fault-at-the-last-lower-call-of-a-mutation")
+			pickFrom(dry.tails, 2, "tailAddrs", "single/fault-at-last-call-of-its-kind-in-a-mutation")
 		}
 		recoverRoot := cd.Tree.Type == "diskpacked" || cd.Tree.Type == "encrypt" || cd.Tree.Type == "blobpacked"
 		for _, k := range ks {
